@@ -5,7 +5,8 @@ tier=${1:-quick}
 ids=$(/venv/bin/python -c "import json; print(' '.join(c['property_id'] for c in json.load(open('MANIFEST.json'))['checks']))")
 rc=0
 for id in $ids; do
-  ./check $id --tier $tier 2>&1 | grep -E "^(VIOLATION|KNOWN-FINDING|$id tier)" || true
+  out=$(./check $id --tier $tier 2>&1); st=$?
+  echo "$out" | grep -E "^(VIOLATION|KNOWN-FINDING|$id tier)" || { echo "CRASH $id (exit $st):"; echo "$out" | tail -5; }
 done
 python3-vt - <<PY
 import json, jsonschema, sys
